@@ -94,17 +94,16 @@ func (p *Publication[T]) Publish(message T) {
 
 // Close closes the publication and all subscriber channels.
 func (p *Publication[T]) Close() {
-	for _, listener := range p.subscribers.Iterate() {
-		listener.shutdown()
+	for id := range p.subscribers.Iterate() {
+		p.unsubscribe(id)
 	}
-	p.subscribers.Clear()
 }
 
 // unsubscribe removes a subscriber from the publication.
 func (p *Publication[T]) unsubscribe(subscriberID uint64) {
-	if s, ok := p.subscribers.Load(subscriberID); ok {
+	// only the caller that takes the subscriber out of the map closes its channels
+	if s, ok := p.subscribers.LoadAndDelete(subscriberID); ok {
 		s.shutdown()
-		p.subscribers.Delete(subscriberID)
 	}
 }
 
